@@ -7,6 +7,12 @@ LEAN_MODULES = ["Ccp.Props.C03"]
 RULE = ("C01's generator biased to banner/macro bodies (indented, blank and deeper-indented body lines, delimiter lines that are "
         "themselves indented, nested starts, unterminated banners/macros), the vendor fixtures, x syntax x ignore_blank_lines x "
         "comment delimiters; every line's stored parent, stored child list and the seven derived views are dumped. "
+        "Stored-list stream (model Ccp.Model.TreeStored, channel treestored): the RAW attributes obj.parent / obj._children, "
+        "translated to positions by object identity, at three observation points -- after CiscoConfParse(lines), after one "
+        "ConfigList.bootstrap(lines), and after the indentation loop alone (the banner and macro walks replaced by no-ops on that "
+        "ConfigList instance) -- on banner/macro blocks (also indented under preceding lines, banner starts inside macro bodies, "
+        "nested banner starts), comments and blank lines that follow a deeper-indented line, ignore_blank_lines on/off, all "
+        "delimiter sets, plus a hand-picked corpus (F02's witness, a line that changes parent twice, a list that needs the sort). "
         "non-trivial = the parse has a line with a parent; distinct by request.")
 LEVEL_TEXT = ("Theorems (Lean 4, no size bounds; Ccp.Props.C03 over the model Ccp.Model.Tree of ConfigList.bootstrap for the indentation "
               "syntaxes and of the BaseCfgLine family views). parse_forest / bootstrap_forest / link_forest: for every text list and every "
@@ -24,11 +30,23 @@ LEVEL_TEXT = ("Theorems (Lean 4, no size bounds; Ccp.Props.C03 over the model Cc
               "i :: all_children), siblings_spec (the parent's children of equal indent, ascending; for a root its own children of equal "
               "indent), self_mem_siblings, flags_spec (is_parent iff child list non-empty iff some other line names i as parent; is_child "
               "iff not a root). The loop bounds (fuel = number of lines) of the model's all_children / all_parents are proved sufficient. "
-              "All theorems are at full strength; none is partial. The correspondence checks on every run that the implementation's STORED "
-              "parent links, STORED child lists and its seven views equal the model's derived ones.")
-LEVEL_NOTE = ("Trusted: Lean kernel, standard axioms (propext, Classical.choice, Quot.sound), the harness. The model derives child lists from "
-              "the parent indices; that the code's stored child lists (and views) agree with the derived ones is measured by the correspondence "
-              "on every run, not proved. Not proved here: the forest invariant after arbitrary committed edit sequences (commit_forest; the "
+              "STORED child lists (model Ccp.Model.TreeStored: per line the parent AND the list the code keeps in BaseCfgLine._children; "
+              "newLine / addChild / reparent mirror object creation, _add_child_to_parent (None parent, comment exception, "
+              "'child.parent is child', append) and _reparent_child (filter the former parent's list unless the former parent is the child "
+              "or the new parent; set parent; append unless member; sort by line number); the four passes run over that state): for every "
+              "option set and every line list, stored_parents_eq (forgetting the stored lists gives exactly parse: same texts, parents, keep "
+              "flags), stored_children_eq_derived (the stored list of every index equals the derived child list; the table of stored lists "
+              "is the table of derived lists), stored_bootstrap_eq_derived (the same for one bootstrap and for passes 1-3), "
+              "stored_children_ascending, stored_child_exactly_once (a line with a parent is in exactly its parent's stored list, once, and "
+              "occurs once in all stored lists together), stored_root_in_no_list, reparent_keeps_stored_eq_derived (one _reparent_child(p, c) "
+              "with p < c on ANY state whose stored lists are the derived ones yields the derived lists of the re-parented tree). "
+              "All theorems are at full strength; none is partial. The correspondence checks on every run that the implementation's raw "
+              "parent / _children attributes equal the stored-list model's (full parse, one bootstrap, after the indentation loop) and that "
+              "its seven views equal the parent-only model's.")
+LEVEL_NOTE = ("Trusted: Lean kernel, standard axioms (propext, Classical.choice, Quot.sound), the harness. That the stored child lists equal the "
+              "derived ones is proved for the stored-list model, which performs the code's list operations one by one; that this model (and the "
+              "hand-written banner/macro scanners it shares with Ccp.Model.Tree) is the code is measured by the correspondence on every run on "
+              "the raw attributes, as is the agreement of the seven views. Not proved here: the forest invariant after arbitrary committed edit sequences (commit_forest; the "
               "re-bootstrap that commit() performs is covered, the edit operations are C07's state machine) and for brace-syntax (junos) "
               "trees (C08's model).")
 ASSUMPTIONS = ["no lone surrogates", "brace syntax trees are covered by C08's check, edit histories by C07's"]
@@ -73,6 +91,81 @@ def cases(rng, tier):
                 lines += T.rand_macro_block(rng)
             lines += T.rand_config(rng, 6, True, delims)
         yield mk(rng.choice(T.SYNTAXES), rng.random() < 0.3, delims, lines)
+    # the STORED links (raw `parent` / `_children` attributes) against the stored-list model Ccp.Model.TreeStored
+    for c in STORED_CORPUS:
+        for ign in (False, True):
+            yield mk_stored("stored", "ios", ign, None, c)
+            yield mk_stored("boot", "ios", ign, None, c)
+        yield mk_stored("pass1", "ios", False, None, c)
+    if tier != "search":
+        for name, lines in T.fixture_configs():
+            yield mk_stored("stored", "ios", False, None, lines, "fixture:" + name)
+    for _ in range({"quick": 1600, "thorough": 60000, "search": 1500}[tier]):
+        delims = rng.choice(T.DELIM_SETS)
+        r = rng.random()
+        op = "stored" if r < 0.6 else ("boot" if r < 0.85 else "pass1")
+        yield mk_stored(op, rng.choice(["ios", "ios"] + T.SYNTAXES), op != "pass1" and rng.random() < 0.5, delims,
+                        rand_stored_lines(rng, delims))
+
+
+# hand-picked inputs of the stored-list stream: F02's witness, a body line that is an indentation child of another
+# body line, nested banner starts (a line changes its parent twice), a banner inside a macro, a comment after a
+# deeper line, blank lines that the ignore_blank_lines rebuild drops
+STORED_CORPUS = [
+    ["banner motd ^", " hi", "", "x^"],
+    ["banner motd ^", "", " hi", "^"],
+    ["macro name m", "! c", "", "  y", " x", "@"],
+    ["banner motd ^", " hi", "  deeper", " again", "^", "interface X", " shutdown"],
+    ["banner motd ^", "a", "banner exec #", " b", "#", " c", "^", "d"],
+    ["macro name m", " x", "  y", "banner login ^", " z", "^", "@", "after"],
+    ["interface X", " a", "  b", " ! c", "  d", "", " e", "", "macro name q", "", " w", "@", " tail"],
+    ["policy-map EDGE", " class VOICE", " ! legacy policer", "  police 8000"],
+    ["interface X", "  a", " banner motd ^", "   b", "^", "   c"],
+]
+
+
+def comment_block(rng, delims):
+    """a comment (or blank line) that follows a deeper-indented line, then a line that would be its child"""
+    d = rng.choice(delims or ["!"])
+    k = rng.choice([1, 1, 2, 3])
+    out = [rng.choice(["interface X", "router bgp 1", " indented top"]), " " * k + "a"]
+    if rng.random() < 0.7:
+        out.append(" " * (k + rng.choice([1, 2])) + rng.choice(["b", d + " deep comment"]))
+    out.append(" " * rng.choice([0, 1, k, k]) + rng.choice([d, d + " c", d + d, ""]))
+    for _ in range(rng.choice([0, 1, 2])):
+        out.append(" " * rng.choice([k, k + 1, k + 2, 1]) + rng.choice(["after", d + " x", "y"]))
+    return out
+
+
+def rand_stored_lines(rng, delims):
+    lines = []
+    for _ in range(rng.choice([1, 2, 2, 3])):
+        r = rng.random()
+        if r < 0.38:
+            blk = T.rand_banner_block(rng, delims)
+            if rng.random() < 0.3:      # the whole banner indented under what precedes it / body lines nested deeper
+                blk = [blk[0]] + [rng.choice(["", " ", "  "]) + b for b in blk[1:]]
+            lines += blk
+        elif r < 0.56:
+            blk = T.rand_macro_block(rng)
+            if rng.random() < 0.3:
+                blk = blk[:1] + T.rand_banner_block(rng, delims)[: rng.choice([1, 2, 3])] + blk[1:]
+            lines += blk
+        elif r < 0.8:
+            lines += comment_block(rng, delims)
+        lines += T.rand_config(rng, 6, True, delims)
+    return lines
+
+
+def mk_stored(op, syntax, ign, delims, lines, origin="gen"):
+    """op: stored = CiscoConfParse(lines); boot = one ConfigList.bootstrap(lines); pass1 = the indentation loop only"""
+    c = T.mk_case(op, syntax, False, ign, delims, lines, origin)
+    c["stream"] = "stored"
+    if c["req"] is not None:
+        ds = T.cfg_delims(syntax, delims)
+        c["req"] = wire.req("treestored", "1" if syntax == "ios" else "0", wire.enc_str("".join(ds)),
+                            "1" if ign else "0", op, wire.enc_strs(lines))
+    return c
 
 
 def neighbours(case, rng):
@@ -82,7 +175,10 @@ def neighbours(case, rng):
             del ls[rng.randrange(len(ls))]
         else:
             ls.insert(rng.randrange(len(ls) + 1), T.rand_plain_line(rng, case["delims"]))
-        yield mk(case["syntax"], case["ignore_blank"], case["delims"], ls)
+        if case.get("stream") == "stored":
+            yield mk_stored(case["op"], case["syntax"], case["ignore_blank"], case["delims"], ls)
+        else:
+            yield mk(case["syntax"], case["ignore_blank"], case["delims"], ls)
 
 
 def mk_hist(syntax, ign, lines, ops):
@@ -94,7 +190,33 @@ def mk_hist(syntax, ign, lines, ops):
     return c
 
 
+def dump_stored(objs):
+    """the raw stored attributes, by object identity: `parent` and `_children` of every line as positions in the
+    config's object list (an object that is not in the list is reported as line 999999)"""
+    pos = {id(o): i for i, o in enumerate(objs)}
+    at = lambda o: pos.get(id(o), 999999)  # noqa: E731
+    return wire.enc_nats([at(o.parent) for o in objs]) + "|" + ";".join(wire.enc_nats([at(c) for c in o._children]) for o in objs)
+
+
+def impl_stored(case):
+    try:
+        p = T.parse_impl(case)
+        cl = p.config_objs
+        if case["op"] != "stored":
+            if case["op"] == "pass1":
+                # observe the state between the indentation loop and the banner / macro walks
+                cl._banner_mark_regex = lambda regex: None
+                cl._ciscoios_macro_mark_children = lambda idxs: None
+            cl.bootstrap(list(case["lines"]))
+    except BaseException as e:  # noqa: BLE001
+        return "err:" + type(e).__name__
+    return dump_stored(list(cl.data))
+
+
 def impl(case):
+    if case.get("stream") == "stored":
+        return impl_stored(case)
+
     def dump(p):
         return T.dump_links(p) + "&" + T.dump_views(p)
     if case.get("ops") is None:
@@ -142,6 +264,35 @@ def impl(case):
                    "1" if case["ignore_blank"] else "0", "forest", wire.enc_strs(texts))
     case["final_texts"] = texts
     return dump(p), req
+
+
+def check_links(parents, children):
+    """the stored links alone: every line's parent precedes it, a non-root line is stored exactly once and only in
+    its parent's list, a root in none, every stored list is ascending and names lines of the config"""
+    n = len(parents)
+    if len(children) != n:
+        return [f"{n} parents but {len(children)} child lists"]
+    fails = []
+    for i in range(n):
+        bad = [j for j in children[i] if not (0 <= j < n)]
+        if bad or not (0 <= parents[i] < n):
+            return [f"line {i}: stored child list {children[i]} / parent {parents[i]} names an object that is not in the config (n={n})"]
+    where = [[] for _ in range(n)]
+    for q in range(n):
+        for j in children[q]:
+            where[j].append(q)
+    for i in range(n):
+        p = parents[i]
+        if p > i:
+            fails.append(f"line {i}: parent {p} comes after it")
+        if p == i:
+            if where[i]:
+                fails.append(f"root line {i} is stored as a child of {where[i]}")
+        elif where[i] != [p]:
+            fails.append(f"line {i} (parent {p}) is stored {len(where[i])} times, in the child lists of {sorted(set(where[i]))}")
+        if any(a >= b for a, b in zip(children[i], children[i][1:])):
+            fails.append(f"stored children of {i} not strictly ascending: {children[i]}")
+    return fails[:3]
 
 
 def check_forest(parents, children, views, indents):
@@ -213,6 +364,11 @@ def parse_dump(ans):
 def oracle(case, ans):
     if ans.startswith("err:"):
         return [f"parse raised {ans}"]
+    if case.get("stream") == "stored":
+        parents_w, children_w = ans.split("|")
+        nat = lambda w: [int(x) for x in w.split(",")] if w else []  # noqa: E731
+        parents = nat(parents_w)
+        return check_links(parents, [nat(w) for w in children_w.split(";")] if parents else [])
     parents, children, views = parse_dump(ans)
     src = case.get("final_texts") if case.get("ops") is not None else case["lines"]
     if src is None:
@@ -233,11 +389,18 @@ def describe(case):
         return {k: case[k] for k in ("syntax", "ignore_blank", "lines", "ops")}
     if len(case["lines"]) > 30:
         return {"syntax": case["syntax"], "n_lines": len(case["lines"]), "origin": case.get("_origin")}
+    if case.get("stream") == "stored":
+        return {k: case[k] for k in ("stream", "op", "syntax", "ignore_blank", "delims", "lines")}
     return {k: case[k] for k in ("syntax", "ignore_blank", "delims", "lines")}
 
 
 def buckets(case, ans):
     out = ["syntax:" + case["syntax"], "ignore_blank:%d" % case["ignore_blank"], "len:%d" % min(30, len(case["lines"]))]
+    if case.get("stream") == "stored":
+        out.append("stored:" + case["op"])
+        if ans and not ans.startswith("err:"):
+            lists = ans.split("|")[1].split(";")
+            out.append("stored-longest-list:%d" % min(6, max((len(w.split(",")) if w else 0) for w in lists)))
     if any(T.BANNER_RE.search(l) for l in case["lines"]):
         out.append("has:banner")
     if any(l[:11] == "macro name " for l in case["lines"]):
